@@ -40,8 +40,19 @@ class BuildLock:
         self.f.close()
 
 
-def coq_build(jobs=16):
-    """Regenerate Gen/*.v from /repo, then a full .vo build (no-op when up to date).
+def model_targets():
+    """the executable models every correspondence evaluation needs (they do not depend on Gen/ or Proofs/)"""
+    out = []
+    for line in open(os.path.join(COQ, "_CoqProject")):
+        line = line.strip()
+        if line.startswith("Model/") or line == "Std/SpecTool.v":
+            out.append(line + "o")
+    return out
+
+
+def coq_build(jobs=16, prop=None):
+    """Regenerate Gen/*.v from /repo, then build (full .vo compilation, no-op when up to date) what the property
+    needs: its Props file with everything it depends on, and the executable models.
     Returns (ok, log, failed_file)."""
     with BuildLock():
         rc, out = sh("/venv/bin/python %s/harness/extract.py" % VERIF, timeout=120)
@@ -51,7 +62,8 @@ def coq_build(jobs=16):
             rc, out = sh("coq_makefile -f _CoqProject -o Makefile", cwd=COQ, timeout=60)
             if rc != 0:
                 return False, out, "Makefile"
-        rc, out = sh("timeout 3000 make -j%d 2>&1 | tail -60" % jobs, cwd=COQ, timeout=3100)
+        targets = " ".join(model_targets() + (["Props/%s.vo" % prop] if prop and os.path.exists(os.path.join(COQ, "Props/%s.v" % prop)) else []))
+        rc, out = sh("timeout 3000 make -j%d %s 2>&1 | tail -60" % (jobs, targets if prop else ""), cwd=COQ, timeout=3100)
         ok = rc == 0 and "Error" not in out
         failed = None
         if not ok:
@@ -203,7 +215,7 @@ def proof_stage(rep, prop):
     if os.environ.get("VERIF_DEV_SKIP_PROOFS"):      # development aid only; never set by registered commands
         rep.notes["proofs_skipped"] = True
         return True
-    ok, log, failed = coq_build()
+    ok, log, failed = coq_build(prop=prop)
     thms = theorems_in(prop) if os.path.exists(os.path.join(COQ, "Props/%s.v" % prop)) else []
     rep.cov["obligations"] = len(thms)
     rep.cov["checker_cmd"] = "cd /verif/coq && make (coqc 8.16.1, full .vo build) && coqc -Q . V Props/%s.v" % prop
